@@ -3,22 +3,26 @@ TB = ("Trusted: Lean 4.33 kernel with axioms propext/Classical.choice/Quot.sound
       "sorry/axiom/native_decide/bv_decide/implemented_by/unsafe); the translator gen/s4gen.py; the correspondence harness and its generators "
       "(differential testing, bounded). ")
 
-claim('C12', 'Lean 4 theorems over a hand model of find_line + translated block arithmetic; in-process differential correspondence; --blocksz oracle on the binary',
+claim('C12', 'Lean 4 theorems over a hand model of find_line + translated block arithmetic + the pattern-selection model; in-process differential correspondence; --blocksz oracle on the binary',
       "Machine-checked for all block sizes >= 1, all byte strings, all offsets: translated block arithmetic laws, find_line returns exactly the line "
       "containing the offset (bounds, bytes, parts in bounds and contiguous), lines tile the file, the in-block variant is sound; the message layer of the model "
       "is block-free. The model is tied to the code by exhaustive small-file and random-history differential runs of the real LineReader, and the binary is run at many "
-      "--blocksz values against the default. The bs-dependent acceptance gate is outside these theorems (known findings F1, F2).",
-      TB + "Modelled not verified: LineReader caches (validated by call histories incl. drops), regex/chrono (not involved), block-zero gate (known findings).",
+      "--blocksz values against the default. The bs-dependent acceptance gate is outside these theorems (known findings F1, F2). Which datetime pattern a file is read with is modelled with "
+      "constants regenerated from syslinereader.rs/syslogprocessor.rs (PatSelSpec): for a one-notation file the chosen row and every date are independent of how many lines block zero holds "
+      "(C04_single_notation_blocksize_independent); for mixed notations they are not (C04_mixed_notation_full_false = known finding F30); tie: component patsel (real SyslineReader/SyslogProcessor).",
+      TB + "Modelled not verified: regex/chrono (the match matrix is an input of the pattern-selection model, computed by the harness with the real regexes), block-zero gate (known findings).",
       "DESIGN.md §6 C12, §5 Lines/Blocks")
 
-claim('C02', 'Lean 4 theorems (lines tile the file; messages partition; find_sysline / streaming loop emit each message once) over hand models of LineReader and SyslineReader; in-process differential correspondence; stdout == file-suffix oracle',
+claim('C02', 'Lean 4 theorems (lines tile the file; messages partition; find_sysline / streaming loop emit each message once; cache/drop soundness of LineReader and SyslineReader for every history) over hand models of LineReader and SyslineReader; in-process differential correspondence; stdout == file-suffix oracle',
       "Machine-checked for every parser P, every byte string, every block size >= 1: find_line is the line containing the offset, lines tile the file, messages are "
       "contiguous from the first timestamped line to the last byte, find_sysline returns the containing message, and the streaming loop of exec_syslogprocessor emits every "
-      "message exactly once in file order; the LineReader's cache and drops are transparent for every history (CacheSpec); the printer writes exactly the message's parts in order through "
+      "message exactly once in file order; the LineReader's cache and drops are transparent for every history (CacheSpec); the SyslineReader's stored state (syslines, syslines_by_range, find_sysline LRU; lookup order and "
+      "invalidation regenerated from the source) never yields a wrong message for any history of finds, in-block finds, drops, clears and removes, and is exactly transparent for drop-free histories and for the "
+      "find-then-drop discipline of exec_syslogprocessor (SyslCacheSpec; two latent library defects outside that discipline are proved as counter-models and reproduced on the real reader); the printer writes exactly the message's parts in order through "
       "its 2056-byte buffer (PrintSpec: C13_parts_bytes, C19_printed_eq_written, macro bodies regenerated from printers.rs). The models are tied to the real readers by differential runs (exhaustive small files at every block size; random access with warm "
       "caches and drops; gz). The binary's stdout is compared byte for byte with the file suffix for 8 input shapes (CRLF, NUL/non-UTF-8, missing final newline, headless "
       "prefix, multi-block lines, > 8096 bytes, lines longer than the print buffer). The acceptance gate is modelled and tied but is bs-dependent: known findings F1, F2.",
-      TB + "Modelled not verified: regex/chrono decide which lines are timestamped (parameter P); SyslineReader caches and drop_data (validated by histories).",
+      TB + "Modelled not verified: regex/chrono decide which lines are timestamped (parameter P; the regexes themselves are modelled under C04); completion of the in-block walk is an observed input of the cached sysline model.",
       "DESIGN.md §6 C02")
 
 claim('C03', 'Lean 4 theorems over source-translated window functions + hand models of binary/linear search and the streaming loop; in-process differential correspondence; -a/-b oracle on the binary',
@@ -46,7 +50,7 @@ claim('C06', 'Lean 4 theorems on the worker/bounded-channel/coordinator transiti
       TB + "Runtime behaviour the model cannot exhibit: OS scheduling fairness, crossbeam internals (assumed FIFO per channel, select returns a ready channel).",
       "DESIGN.md §6 C06")
 
-claim('C08', 'Lean 4 theorems on the ordered-map insert/drain model and on the time-value extraction, with key shape, window comparisons and the 16-layout time-field table regenerated from the source; in-process correspondence of tv_pair_from_buffer; printed-order correspondence and field oracle on synthesised wtmp / pacct / lastlog files',
+claim('C08', 'Lean 4 theorems on the ordered-map insert/drain model, on the time-value extraction and on the record-to-text render programs, with key shape, window comparisons, the 16-layout time-field table and every as_bytes arm regenerated from the source; in-process correspondence of tv_pair_from_buffer and as_bytes; printed-order correspondence and field oracle on synthesised wtmp / pacct / lastlog files',
       "Machine-checked: with the map key regenerated from the source (time value, file offset) the printed order is the stable sort by time value of the non-null, "
       "in-window records - each exactly once, equal times in file order, window inclusive; a proved counter-model shows records are lost when the key lacks the offset (the "
       "defect that was repaired by commit 6df5067a). WHICH value is the record's time is proved over a table regenerated for all 16 record layouts (size, offset_tv, size_tv, the primitive "
@@ -54,8 +58,11 @@ claim('C08', 'Lean 4 theorems on the ordered-map insert/drain model and on the t
       "field read with its DECLARED type at its DECLARED offset (C08_tv_types_agree, C08_tv_denotes; unsigned fields stay monotone across 2^31: C08_tv_monotone_unsigned; counter-model "
       "signed_read_of_unsigned_misorders). Tie: the key shape, prefilter operators, null test and the layout table are re-read every run; the real tv_pair_from_buffer / FixedStruct::new on ~3600 "
       "random and boundary records of every layout per run; the binary on synthesised wtmp (utmpx), pacct (acct_v3) and lastlog files (ties, nulls, disorder, times across 2^31, every container, "
-      "windows) with its printed order compared with the model; each line must show the record's own fields. Known finding F12 (stray NUL after each record).",
-      TB + "Modelled not verified: FixedStruct::as_bytes rendering and layout detection (score_file); layouts other than Linux utmpx / acct_v3 / lastlog are tied in-process only.",
+      "windows) with its printed order compared with the model; each line must show the record's own fields. The text of a record is proved as well (FixedRenderSpec): every arm of "
+      "FixedStruct::as_bytes is translated into a render program on every run (fields resolved from the struct definitions, the 14 writer macros pinned) and, for all 16 layouts, every read lies inside the one "
+      "field the op names and inside the record (the line of record k depends on record k's bytes only), the line is label/value pieces with distinct labels and canonical values, shown + omitted = all fields, every "
+      "number is read with its declared type, the datetime shown is the sort-key field; tie: real FixedStruct::new + as_bytes on 8k-64k records per run, byte for byte. Known finding F12 (stray NUL after each record).",
+      TB + "Modelled not verified: layout detection (score_file); layouts other than Linux utmpx / acct_v3 / lastlog are tied in-process only (time value and text).",
       "DESIGN.md §6 C08")
 
 claim('C10', 'Lean 4 theorems on the ordered-map insert/drain model with key shape and ts_pass_filters regenerated from the source; printed-order correspondence against an independent evtx-crate dump',
@@ -168,13 +175,17 @@ claim('C17', 'Lean 4 theorems on a retained-data counting model with drop rules 
       TB + "Runtime behaviour the model cannot exhibit: allocator, real RSS; which messages the consumer still holds depends on scheduling.",
       "DESIGN.md §6 C17")
 
-claim('C04', 'Lean 4 theorems on calendar arithmetic, the capture-normalisation model and tables regenerated from the source (173 pattern rows, 37 field sets, 392 zones, month names); in-process correspondence of bytes_to_regex_to_datetime (8.5k rendered lines per run) and probe-log oracle',
+claim('C04', 'Lean 4 theorems on calendar arithmetic, the capture-normalisation model, a regex semantics with the 173 pattern ASTs regenerated from the source (EZCHECK soundness/transparency, RFC 3339 capture end to end), the pattern-selection model, and tables regenerated from the source (37 field sets, 392 zones, month names); in-process correspondences (regex crate per row, bytes_to_regex_to_datetime, SyslineReader pattern selection) and probe-log oracle',
       "Machine-checked: days-from-civil and its inverse round-trip for all Int dates and are strictly monotone; for every generated field set, canonical buffer pieces parse to the denoted instant "
       "(zone-less and ambiguous zones read in the fallback zone); notation forms map to canonical pieces (day/month/hour forms, 1-9 fraction digits kept as written, 10-12 truncated, named zones, "
       "year fill); every zone-table value is a well-formed offset within 14 h and case variants agree (decided over the whole table, and compared with a committed snapshot); every pattern row starts "
-      "at column 0. Epoch notations are only right at offset 0 (F26, proved). Regex capture and pattern precedence are NOT theorems: every row is rendered at boundary instants and sent through "
-      "the real regex+normalise+chrono pipeline and compared with the model's instant. Known findings F26-F28.",
-      TB + "regex (which substrings the 173 patterns capture, which row wins) and chrono parse are validated differentially only; numeric-offset scanning is proved at instances.",
+      "at column 0. Epoch notations are only right at offset 0 (F26, proved). The 173 regexes are inside the model: each row's pattern is re-parsed from datetime.rs into an AST on every run, with a language "
+      "semantics over strict UTF-8 and an executable leftmost-first matcher with captures proved sound; over the whole table every match contains a digit, has_year4 rows need '1' or '2', has_d2 rows need two "
+      "consecutive digits, so the EZCHECK pre-checks never skip a matching line and find_datetime_in_line with its persisting cursors equals the loop without them (C04_ezcheck_sound, C04_ezcheck_transparent); "
+      "for the RFC 3339 row capture is proved end to end for every field value (C04_rfc3339_search, C04_rfc3339_end_to_end). Pattern selection is modelled (PatSelSpec): try order, first-match, the one row kept "
+      "after analysis, stability for one-notation files, parse-cache transparency and clearing at year changes. Ties: rgx (every row: match, span, every group span vs the regex crate), time (regex+normalise+chrono "
+      "pipeline at boundary instants), patsel (real SyslineReader/SyslogProcessor). Known findings F26-F28.",
+      TB + "completeness/priority of the model matcher w.r.t. the regex crate (rows other than the RFC 3339 one) and chrono parse are validated differentially only; numeric-offset scanning is proved at instances.",
       "DESIGN.md §6 C04")
 
 claim('C11', 'Lean 4 theorems on a model of process_missing_year that is a function of the loop skeleton regenerated from the source (order of the jump test and exits, comparison operators, year step, break arms, threshold); in-process correspondence with the real SyslogProcessor; end-to-end oracle on generated year-less logs',
